@@ -8,6 +8,11 @@ ASSUMPTIONS = [
 ]
 
 CONF = {
+    "C16": {
+        "rule": "rapid-generated codec cases of four kinds (message decode, message encode, burn decode, burn encode): byte strings of length 0..600 biased to 0,1,115,116,117,116+131..133 resp. 131,132,133; field values from hostile integer sets and random, field sizes 32 and {0,1,20,31,33,64}; amounts {0,1,2^64-1,2^64,2^128,2^255,2^256-1,random}; oracle: differential against the independent reference codec (accept/reject, every field, exact bytes) plus decode-encode and encode-decode round-trips; non-trivial = accepted case with a non-zero byte in every field; distinct by case content. Thorough adds native coverage-guided fuzzing of both decoders with the same oracle inside the target.",
+        "quick": {"rapid": [("TestC16", 100000, 1)]},
+        "thorough": {"rapid": [("TestC16", 400000, 16)], "fuzz": [("FuzzMessageCodec", 60), ("FuzzBurnCodec", 60)]},
+    },
     "C14": {
         "level": "fault_enumeration",
         "rule": "rapid histories of 2..7 rounds: configuration moves (send-side pause, max body size around 132, zero-address messenger, mint/burn pause, ledger pause/blacklist/allowance/minter) then a transfer under test (valid deposit of either variant, possibly with a 31/33-byte caller; valid module-addressed receive; deposit+receive in one transaction); its dependency calls are counted in a dry run on a discarded branch and EVERY non-empty subset of those calls (<=3 calls, <=7 subsets) is failed in turn, each as its own transaction through the real SDK pipeline, followed by the unfaulted transaction; oracle: any failed dependency call or late validation failure => error, and after the real rollback raw KV of both stores and the block's event list are as before; success => debit, burn and message (resp. mint) all effective; non-trivial = failure that hit after something was already moved or marked (effective earlier call, or nonce write); distinct by (case shape, op, fault subset, failure kind)",
@@ -90,6 +95,12 @@ CONF = {
 ALL = ["C%02d" % i for i in range(1, 21)]
 
 MANIFEST_TEXT = {
+    "C16": {
+        "technique": "differential property-based testing (rapid) of the message/burn-message codecs against an independent reference codec written from the CCTP layout, with round-trip laws; native go fuzzing with the same oracle (thorough)",
+        "level": "Exploration over generated byte strings and field values; layout judged by an independent implementation pinned by hand-computed vectors.",
+        "note": "Trusted: the reference codec (harness/refcodec, self-tested).",
+        "ref": "DESIGN.md section 3 C16",
+    },
     "C14": {
         "technique": "fault injection enumerated over every non-empty subset of the dependency calls of each transfer (counted by dry run), at generated points of generated histories (rapid), with state/ledger/event comparison after the SDK's real rollback",
         "level": "Fault enumeration: complete over subsets of the (<=3) dependency calls per transaction under test; histories and configurations are sampled.",
